@@ -1,0 +1,84 @@
+//go:build verif
+
+package v2
+
+import (
+	"time"
+
+	"github.com/nuts-foundation/nuts-node/network/transport"
+	"github.com/nuts-foundation/nuts-node/network/transport/grpc"
+	"github.com/nuts-foundation/nuts-node/network/transport/v2/gossip"
+)
+
+// VerifAttach sets the connection list of a protocol created with New (production: Register, which needs a gRPC server
+// and a connection manager). Call Configure and Start as production does.
+func VerifAttach(p transport.Protocol, connections grpc.ConnectionList) {
+	p.(*protocol).connectionList = connections
+}
+
+// VerifPeerConnected reports a connected v2 stream of the peer (production: connection manager observer).
+func VerifPeerConnected(p transport.Protocol, peer transport.Peer) {
+	pp := p.(*protocol)
+	pp.connectionStateCallback(peer, transport.StateConnected, pp)
+}
+
+// VerifPeerDisconnected reports the closed v2 stream of the peer (production: connection manager observer).
+func VerifPeerDisconnected(p transport.Protocol, peer transport.Peer) {
+	pp := p.(*protocol)
+	pp.connectionStateCallback(peer, transport.StateDisconnected, pp)
+}
+
+// VerifGossipManager returns the protocol's gossip manager (created by Configure), for gossip.VerifTick.
+func VerifGossipManager(p transport.Protocol) gossip.Manager {
+	return p.(*protocol).gManager
+}
+
+// VerifHandleSync dispatches one envelope to the message handler protocol.handle selects for it, but on the calling
+// goroutine (production: one goroutine per message, TransactionList through the list handler's channel) and returns
+// the handler's own error.
+func VerifHandleSync(p transport.Protocol, connection grpc.Connection, envelope *Envelope) error {
+	pp := p.(*protocol)
+	var f handleFunc
+	switch envelope.Message.(type) {
+	case *Envelope_Gossip:
+		f = pp.handleGossip
+	case *Envelope_TransactionList:
+		f = pp.handleTransactionList
+	case *Envelope_TransactionListQuery:
+		f = pp.handleTransactionListQuery
+	case *Envelope_TransactionPayloadQuery:
+		f = pp.handleTransactionPayloadQuery
+	case *Envelope_TransactionPayload:
+		f = pp.handleTransactionPayload
+	case *Envelope_TransactionRangeQuery:
+		f = pp.handleTransactionRangeQuery
+	case *Envelope_State:
+		f = pp.handleState
+	case *Envelope_TransactionSet:
+		f = pp.handleTransactionSet
+	case *Envelope_DiagnosticsBroadcast:
+		f = pp.handleDiagnostics
+	default:
+		return errMessageNotSupported
+	}
+	return f(pp.ctx, connection, envelope)
+}
+
+// VerifExpireConversations moves the expiry of every open conversation into the past (virtual advance of the clock by
+// the conversation timeout) and returns how many there were. Expired conversations no longer block new ones; they still
+// accept their response until evicted.
+func VerifExpireConversations(p transport.Protocol) int {
+	cMan := p.(*protocol).cMan
+	cMan.mutex.Lock()
+	defer cMan.mutex.Unlock()
+	past := time.Now().Add(-time.Second)
+	for _, c := range cMan.conversations {
+		c.expiry = past
+	}
+	return len(cMan.conversations)
+}
+
+// VerifEvictConversations runs one pass of the conversation eviction (production: ticker with the conversation timeout as period).
+func VerifEvictConversations(p transport.Protocol) {
+	p.(*protocol).cMan.evict()
+}
